@@ -40,17 +40,21 @@ class C13N(JSONSerializable):
     """Minimal model class: one optional child `x` and an optional list `children`, parsed the way
     the real classes do it (process_object / process_objects on the sub-specifications)."""
 
-    def __init__(self, id_, x, children):
+    KNOWN_KEYS = ('id', 'type', 'x', 'children', 'ignore')
+
+    def __init__(self, id_, x, children, extra=0):
         self.id = id_
         self.x = x
         self.children = children
         self.payload = 0
+        self.extra = extra  # number of keys from_json was handed beyond KNOWN_KEYS (comment keys that survived)
 
     @classmethod
     def from_json(cls, data, dic):
         x = U.process_object(data['x'], dic) if 'x' in data else None
         children = U.process_objects(data['children'], dic) if 'children' in data else []
-        return cls(data['id'], x, children)
+        extra = len([k for k in data if k not in cls.KNOWN_KEYS])
+        return cls(data['id'], x, children, extra)
 
 
 class C13Picky(JSONSerializable):
@@ -249,7 +253,10 @@ TAGS = {'C13N': 'N', 'C13Picky': 'K', 'Parameter': 'P', 'TransformedParameter': 
 
 
 def real_tag(o):
-    return TAGS.get(type(o).__name__, 'X')
+    t = TAGS.get(type(o).__name__, 'X')
+    if isinstance(o, C13N) and o.extra:
+        t += 'e'  # the object saw keys it should never see (e.g. a `_` comment key that was not removed)
+    return t
 
 
 def real_kids(o):
